@@ -43,6 +43,7 @@ def gen_specs(rng, parallel=False):
                 specs.append(mh.Spec("B%d" % k, exe=exe, exe_path=exe_path, exe_build=exe_build, suite=suite, suite_build=suite_build,
                                      suite_loc=suite_loc, exe_env=exe_env, suite_env=suite_env,
                                      bench_env=rng.choice([None, None, None, {"MODE": "bench-%d" % k}]), N=rng.randint(1, 2), retries=rng.randint(0, 1),
+                                     ign=rng.random() < 0.3,
                                      script=[rng.choice(["ok", "ok", "ok", "exit", "unp"]) for _ in range(rng.randint(0, 2))],
                                      exclusive=(False if parallel else None)))
                 k += 1
@@ -113,9 +114,16 @@ def run(chk):
             failing_rc = [b for b in failing if b not in oserr]
             noB = rng.random() < 0.15
             argv = ["-B"] if noB else []
+            # -f (record faulty results) and ignore_timeouts are about benchmark processes: a build that fails, also one that is
+            # killed (status -9), still fails under them
+            faulty = rng.random() < 0.2
+            if faulty:
+                argv.append("-f")
+            fail_rc = rng.choice([1, 1, 2, -9])
             sched = rng.choice(["batch", "round-robin", "random"])
             seed = rng.randint(0, 10 ** 6)
-            case = dict(specs=[s.describe() for s in specs], failing=failing_rc, oserror=oserr, argv=argv, scheduler=sched, seed=seed)
+            case = dict(specs=[s.describe() for s in specs], failing=failing_rc, oserror=oserr, argv=argv, scheduler=sched, seed=seed,
+                        failing_builds_exit_with=fail_rc)
             f = os.path.join(d, "c13.data")
             if i % 3 == 2:
                 # history: an earlier session (all builds succeed) interrupted at a random process start leaves runs partially
@@ -129,7 +137,7 @@ def run(chk):
                 chk.count("histories_with_interrupted_earlier_session")
             if os.path.exists(f):
                 shutil.copy(f, os.path.join(d, "ctl.data"))      # the control session starts from the same recorded state
-            obs = mh.run_impl(specs, f, sched, argv, failing_rc, seed=seed, build_oserror=oserr)
+            obs = mh.run_impl(specs, f, sched, argv, failing_rc, seed=seed, build_oserror=oserr, build_fail_rc=fail_rc)
             if i % 3 == 2:
                 chk.count("histories_partially_recorded_runs", sum(1 for s_ in specs if 0 < obs.loaded.get(s_.name, (0, 0))[0] < s_.N))
             if isinstance(obs.result, str):
@@ -155,7 +163,7 @@ def run(chk):
                     break
             order = obs.order
             idx = {nme: k for k, nme in enumerate(order)}
-            wterm, ids2 = mh.world_term(specs, order, builds=not noB, failing_builds=failing)
+            wterm, ids2 = mh.world_term(specs, order, faulty=faulty, builds=not noB, failing_builds=failing)
             ev = mh.canon_events(obs, ids2, order)
             exprs.append((case, ev, mh.impl_states(obs, order), obs.result,
                           "let w := %s in sx_session w (session w %s %s)" % (
@@ -164,7 +172,7 @@ def run(chk):
             if failing and not noB:
                 keep = [s for s in specs if not any(b in failing for b in needs(s))]
                 if keep and len(keep) < len(specs):
-                    ctl = mh.run_impl(keep, os.path.join(d, "ctl.data"), sched, argv, [], seed=seed)
+                    ctl = mh.run_impl(keep, os.path.join(d, "ctl.data"), sched, argv, [], seed=seed)       # (same -f)
                     cidx = {nme: k for k, nme in enumerate(ctl.order)}
                     for s in keep:
                         a = [e[1:] for e in mh.canon_events(obs, ids2, order, False) if e[0] == idx[s.name]]
